@@ -240,6 +240,50 @@ theorem implicify_heavy (m m' : Mol) (cnt : Nat) (fx : List Nat) (h : implicify 
           have hz' : (p.2.z != 1) = true := by simpa using hz
           rw [this, hz']; rfl
 
+/-- the net charge after removing atoms that are all neutral -/
+theorem sum_filter_neutral : ∀ (l : List (Nat × Atom)) (keep : Nat × Atom → Bool), (∀ p ∈ l, keep p = false → p.2.charge = 0) →
+    ((l.filter keep).map (·.2.charge)).sum = (l.map (·.2.charge)).sum := by
+  intro l
+  induction l with
+  | nil => intro _ _; rfl
+  | cons p tl ih =>
+    intro keep h
+    have ht := ih keep (fun q hq => h q (List.mem_cons_of_mem _ hq))
+    rw [List.filter_cons]
+    cases hk : keep p with
+    | true => simp only [if_true, List.map_cons, List.sum_cons, ht]
+    | false =>
+      have := h p (List.mem_cons_self) hk
+      simp only [Bool.false_eq_true, if_false, List.map_cons, List.sum_cons, ht, this]
+      omega
+
+/-- **`implicify_hydrogens` conserves the net charge** when the explicit plain hydrogens are neutral (a charged explicit
+    hydrogen would be removed together with its charge: the code does not look at it) -/
+theorem implicify_charge (m m' : Mol) (cnt : Nat) (fx : List Nat) (h : implicify m = .ok (m', cnt, fx)) (hnd : m.ids.Nodup)
+    (hneutral : ∀ p ∈ m.atoms, isPlainH p.2 = true → p.2.charge = 0) : netCharge m' = netCharge m := by
+  unfold implicify at h
+  cases hc : collectExplicit m m.atoms [] with
+  | error e => simp [hc] at h
+  | ok ex =>
+    simp only [hc] at h
+    cases hs : scanAll m ex [] [] with
+    | none => simp [hs] at h
+    | some res =>
+      obtain ⟨rm, fxs⟩ := res
+      simp only [hs, Except.ok.injEq, Prod.mk.injEq] at h
+      obtain ⟨rfl, -, -⟩ := h
+      have hex : ExOK m ex := collectExplicit_ok m m.atoms [] ex (fun _ hp => hp) hc (by intro khs hk; simp at hk)
+      rw [(applyFixed_skeleton fxs (removeAtoms m rm)).2]
+      unfold netCharge removeAtoms
+      apply sum_filter_neutral
+      intro p hp hkeep
+      have hcont : rm.contains p.1 = true := by simpa using hkeep
+      rcases scanAll_sub m ex [] [] rm fxs hs p.1 (List.contains_iff_mem.mp hcont) with h1 | ⟨khs, hk, hx⟩
+      · simp at h1
+      · obtain ⟨a, ha, hpl⟩ := hex khs hk p.1 hx
+        have : p.2 = a := eq_of_mem_nodup m.atoms hnd p.1 p.2 a (by simpa using hp) ha
+        exact hneutral p hp (this ▸ hpl)
+
 /-! ## the `h ≥ i` scan finds the original count back -/
 
 /-- if `calc_implicit`'s first-match scan gives `h`, then `implicify`'s scan for `i = h` removed hydrogens gives the same `h` -/
